@@ -122,6 +122,14 @@ def build(verbose=False, need_race=True):
                         os.path.join(src, "internal/pkg/midi/driver/alsa/alsa.go"))
             shutil.copy(os.path.join(VERIF, "deps", "input", "zz_verif_export.go"),
                         os.path.join(src, "internal/pkg/input/zz_verif_export.go"))
+            # seams of the manager world: the two functions that need /dev/input give their names to wrappers
+            for rel, old, new in (("internal/pkg/input/manager.go", "func MonitorNewDevices(", "func monitorNewDevicesReal("),
+                                  ("internal/pkg/input/device.go", "func (d *Device) ProcessEvents(", "func (d *Device) processEventsReal(")):
+                path = os.path.join(src, rel)
+                text = open(path).read()
+                if text.count(old) != 1:
+                    raise BuildError("seam %r not found exactly once in %s" % (old, rel))
+                open(path, "w").write(text.replace(old, new))
             # peers
             deps = os.path.join(src, "_verifdeps")
             shutil.copytree(os.path.join(VERIF, "deps", "openrgb-go"), os.path.join(deps, "openrgb-go"))
